@@ -31,6 +31,10 @@ def run(spec, start, ext_ops, cfg, pre_start_ops=(), max_steps=400, query_rng=No
   res.run = run_
   host = cfg['host']
   sem = threading.Semaphore(0)
+  # an external post is made "while the object is idle": post_* enqueues first and appends its POST_* spy marker afterwards,
+  # in the posting thread, so the object's thread must not begin the step before the post call has returned (otherwise the
+  # marker of the *previous* call interval lands inside the step's log - a race of the harness' real threads, not a step fact)
+  gate = threading.Lock()
   is_ao = host == 'ao'
 
   def snapshot(chart, into):
@@ -48,6 +52,8 @@ def run(spec, start, ext_ops, cfg, pre_start_ops=(), max_steps=400, query_rng=No
 
     class SyncAO(base):
       def next_rtc(self):
+        with gate:
+          pass
         self._vt_busy = True
         try:
           return base.next_rtc(self)
@@ -124,10 +130,11 @@ def run(spec, start, ext_ops, cfg, pre_start_ops=(), max_steps=400, query_rng=No
       queries()
       for kind, sig in ext_ops:
         ev = Event(signal=sig)
-        if kind == 'fifo':
-          chart.post_fifo(ev)
-        else:
-          chart.post_lifo(ev)
+        with gate:
+          if kind == 'fifo':
+            chart.post_fifo(ev)
+          else:
+            chart.post_lifo(ev)
         if is_ao:
           while len(chart.queue) != 0 or chart._vt_busy:
             if not sem.acquire(timeout=20):
